@@ -624,6 +624,8 @@ class InterpBase:
             return seq(self.ev_list([e.key, e.value], s, cfr), lambda s2, kv: [(s2, [tuple(kv)])])
 
         def fin(s, kvs):
+            if not isinstance(kvs, list):
+                return [(s, kvs)]  # abstract mapping produced by a comp_abstract hook
             for k, _ in kvs:
                 if not deep_host(k):
                     raise Unsupported("dict comprehension with symbolic key", e)
@@ -679,4 +681,8 @@ class InterpBase:
                 return dict(h.items)
         if isinstance(v, dict):
             return dict(v)
+        if isinstance(v, BoundMethod) and v.name == "__dict__" and isinstance(v.recv, Ref) and isinstance(st.get(v.recv), HObj) \
+                and not st.get(v.recv).lazy and not st.get(v.recv).open:
+            # obj.__dict__ of an instance all of whose attributes are materialised: the instance fields
+            return dict(st.get(v.recv).fields)
         raise Unsupported("** of a symbolic mapping", node)
